@@ -381,3 +381,29 @@ pub fn errkind<E: std::fmt::Debug>(e: &E) -> String {
         .unwrap_or("")
         .to_string()
 }
+
+// ---------------------------------------------------------------- descriptor accounting (C09)
+pub struct FdWatch {
+    before: Vec<String>,
+}
+impl FdWatch {
+    pub fn start() -> FdWatch {
+        FdWatch {
+            before: open_fd_ids(),
+        }
+    }
+    /// Identities open now that were not open at start (multiset difference), and the reverse.
+    pub fn finish(&self) -> Value {
+        let after = open_fd_ids();
+        let mut b = self.before.clone();
+        let mut leaked = Vec::new();
+        for id in after.iter() {
+            if let Some(pos) = b.iter().position(|x| x == id) {
+                b.swap_remove(pos);
+            } else {
+                leaked.push(id.clone());
+            }
+        }
+        json!({"ev": "teardown", "leaked": leaked, "nleaked": leaked.len(), "lost": b, "nlost": b.len()})
+    }
+}
